@@ -122,7 +122,7 @@ def Quirks.all : Quirks := ⟨true, true, true, true, true⟩
 /-- the code as it is at this commit: every escaping exception is still there. The correspondence runs the model
 under this setting (`model=`) and under `Quirks.none` (`model_fixed=`); set this to `Quirks.none` in the commit
 that applies fixes/C19_tag_resolution.diff and moves the findings to `fixed`. -/
-def Quirks.current : Quirks := Quirks.all
+def Quirks.current : Quirks := Quirks.none
 
 /-- Python truthiness of a JSON value (`if not fully_qualified_class_name`) -/
 def Json.truthy : Json → Bool
